@@ -639,7 +639,16 @@ func checkSel(r *core.Run, d string, s *SelTree, tag string) {
 	r.Tag("select-core:" + tag + ":ok=" + ok)
 	// printing: the real printer + tokenizer against the model's token sequence
 	r.Do("C13.sel.tokens " + d + " " + ts)
-	rt := r.Do("C13.sel.roundtrip " + d + " " + ts)
+	rtLine := "C13.sel.roundtrip " + d + " " + ts
+	rt := r.Impl(rtLine)
+	if ok == "yes" || rt != "diff outside" {
+		// an ill-formed tree (an outer join without ON, a natural join with one …) may be printed as a text that the real
+		// grammar reads as a statement OUTSIDE the core (`a left join b natural join c on e` nests to the right); the
+		// model's parser covers the core only – nothing to compare then
+		r.Diff(rtLine, rt)
+	} else {
+		r.Tag("select-core-not-ok:reparsed-outside-the-core")
+	}
 	if ok != "yes" {
 		r.Tag("select-core-not-ok:" + firstWordOf(rt))
 		return
